@@ -114,6 +114,19 @@ def exhaustive_E2(max_len=2, tmax=3, emax=2):
             yield [('add', 0, u, v, t, e) for (u, v, t, e) in h]
 
 
+def exhaustive_E3(max_len=3, tmax=3, emax=3):
+    """the two orientations of ONE pair, every history of <= max_len calls: reciprocal arcs on the digraph (whose
+    events may share instants), either endpoint order on the graph"""
+    calls = []
+    for (u, v) in ((1, 2), (2, 1)):
+        for t in range(0, tmax + 1):
+            calls.append((u, v, t, None))
+            for d in range(1, emax + 1):
+                calls.append((u, v, t, t + d))
+    for h in itertools.product(calls, repeat=max_len):
+        yield [('add', 0, u, v, t, e) for (u, v, t, e) in h]
+
+
 def history_nodes(ops):
     ns = []
     for op in ops:
@@ -124,6 +137,11 @@ def history_nodes(ops):
         elif op[0] == 'addnode':
             if op[2] not in ns:
                 ns.append(op[2])
+        elif op[0] == 'bulk3':
+            for p in op[4]:
+                for x in p[:2]:
+                    if x not in ns:
+                        ns.append(x)
         elif op[0] == 'bulk':
             l = op[5]
             for p in l:
@@ -141,6 +159,8 @@ def history_times(ops):
                 ts.append(op[4])
                 if op[5] is not None:
                     ts.append(op[5])
+        elif op[0] == 'bulk3':
+            ts += [x for x in (op[2], op[3]) if x is not None] + [x for p in op[4] for x in p[2:4]]
         elif op[0] == 'bulk':
             if op[3] is not None:
                 ts.append(op[3])
